@@ -170,7 +170,10 @@ func (c *FnCtx) load(st *State, p *PtrVal) *Term {
 			}
 		} else if isOpaqueStruct(p.root) {
 			if len(path) > 0 {
-				unsupported("field of opaque struct %s", p.root)
+				// configuration field of a standard-library object (Decoder.Strict, ...): value not tracked
+				c.trusted["fields of standard-library objects (xml.Decoder.Strict, CharsetReader, ...) are not tracked"] = true
+				ft := p.root.Underlying().(*types.Struct).Field(path[0].field).Type()
+				return c.eng.symbolicInput(c, st, "opaque!field", ft)
 			}
 			return p.obj
 		} else {
@@ -270,7 +273,8 @@ func (c *FnCtx) store(st *State, p *PtrVal, v *Term) {
 		return
 	}
 	if isOpaqueStruct(p.root) {
-		unsupported("store into opaque struct %s", p.root)
+		c.trusted["fields of standard-library objects (xml.Decoder.Strict, CharsetReader, ...) are not tracked"] = true
+		return
 	}
 	hn, hs := c.ptrHeapName(p.root)
 	if len(p.path) == 0 {
